@@ -50,7 +50,7 @@ Proof.
            ++ unfold upd. rewrite Z.eqb_refl. split; intros; congruence.
         -- exfalso. assert (Some q1 = None) by (apply r_live0; reflexivity). discriminate.
         -- exfalso. assert (Some q2 = None) by (apply r_live0; reflexivity). discriminate.
-        -- split; [reflexivity|]. constructor; simpl; auto; try congruence. split; intros; assumption.
+        -- split; [reflexivity|]. constructor; simpl; auto; try congruence; try (split; intros; assumption).
       * rewrite <- (r_map0 _ E). destruct (s_map s1 (c_trace c)) as [q|]; simpl.
         -- split; [reflexivity|]. constructor; simpl; auto; try congruence.
            ++ intros y Hy. unfold upd. destruct (Z.eqb_spec y (c_trace c)); auto.
@@ -66,8 +66,7 @@ Proof.
     + unfold upd. destruct (Z.eqb_spec t x); [congruence|assumption].
   - destruct (Z.eqb_spec x t); [discriminate|]. rewrite <- (r_map0 _ n), <- (r_open0 _ n), <- r_ctr0.
     destruct (s_map s1 x); [destruct (s_open s1 x)|]; simpl; (split; [reflexivity|]); constructor; simpl; auto; try congruence.
-    + congruence.
-    + intros y Hy. unfold upd. destruct (Z.eqb_spec y x); auto.
+    intros y Hy. unfold upd. destruct (Z.eqb_spec y x); auto.
   - destruct (Z.eqb_spec x t); [discriminate|]. rewrite <- (r_map0 _ n), <- (r_open0 _ n).
     destruct (s_open s1 x) as [p|]; [|simpl; split; [reflexivity|constructor; auto; congruence]].
     destruct (s_map s1 x) as [[|[i c] r]|]; try (simpl; split; [reflexivity|constructor; auto; congruence]).
